@@ -112,7 +112,15 @@ def oracle(sc, res, rng_seed=0):
     fails = []
     if res["err"] is not None:
         if S.err_in_dpss(res["err"]):
-            return []       # the Slepian taper computation failed (property C07's code): no spectrum to judge
+            # the Slepian taper computation failed (property C07's code): no spectrum to judge — unless the
+            # single-channel estimator works with identical keywords (then the two derive different tapers)
+            if sc["est"] == "multi_taper_csd":
+                s1 = {k: v for k, v in sc.items() if k not in ("via_get_spectra", "history")}
+                s1["est"] = "multi_taper_psd"
+                if S.run_scenario(s1)["err"] is None:
+                    return [Fail("C04/multi_taper_csd/equals-psd", "multi_taper_csd raises %r where multi_taper_psd with identical "
+                                 "keywords returns a spectrum" % res["err"], repr(res["err"]), "the same tapers / a spectrum")]
+            return []
         return [Fail("C04/%s/exception" % sc["est"], "the estimator raised %r" % res["err"], repr(res["err"]), "a spectrum")]
     est = sc["est"]
     x = res["x"]
@@ -136,8 +144,8 @@ def oracle(sc, res, rng_seed=0):
     normalized = sc.get("normalize", True)
     # ---- Parseval
     want = None
-    if est in ("periodogram", "periodogram_csd") and normalized:
-        want = S.frac_power(x)
+    if est in ("periodogram", "periodogram_csd") and normalized and nb >= x.shape[-1]:
+        want = S.frac_power(x)          # (NFFT < N truncates the signal: outside the Parseval clause)
     elif est in ("multi_taper_psd", "multi_taper_csd") and not sc.get("adaptive"):
         want = mt_expected_power(sc, res)
     elif est == "welch":
